@@ -218,7 +218,7 @@ func runBin(t *vlib.T) {
 		}
 		for pi, off := range vs.prefixes {
 			rem := len(vs.data) - off - 4
-			for _, v := range []int64{0, int64(rem) - 1, int64(rem), int64(rem) + 1, 1<<31 - 1, 1 << 31, 1<<32 - 1, 1 << 24, 1 << 16} {
+			for _, v := range []int64{0, int64(rem) - 1, int64(rem), int64(rem) + 1, 1<<31 - 1, 1 << 31, 1<<32 - 1, 1 << 26, 1 << 16} {
 				if v < 0 {
 					continue
 				}
